@@ -126,6 +126,12 @@ def run_case(c):
     from vlib.gen.layout import relayout
 
     lrng = np.random.default_rng(c["seed"] + 7)
+    # results handed out stay what they are: the arrays of this first request are kept (by reference) and looked at again at the very end, after
+    # every other request of this case has gone through the same object
+    ph.run_qpoints(qs, with_eigenvectors=True, with_group_velocities=True, with_dynamical_matrices=True)
+    held0 = ph.get_qpoints_dict()
+    held0 = {k_: v_ for k_, v_ in held0.items() if isinstance(v_, np.ndarray)}
+    held0_copy = {k_: np.array(v_, copy=True) for k_, v_ in held0.items()}
     # ---- run_qpoints, full option product
     for we in (False, True):
         for wg in (False, True):
@@ -478,6 +484,11 @@ def run_case(c):
     finally:
         os.chdir(cwd)
         shutil.rmtree(tmp, ignore_errors=True)
+    for k_, v_ in held0.items():
+        obs["n_results_reread_at_the_end"] = obs.get("n_results_reread_at_the_end", 0) + 1
+        if v_.shape != held0_copy[k_].shape or not np.array_equal(v_, held0_copy[k_], equal_nan=True):
+            bad("handed_out_result_changed", "the '%s' array handed out by the first run_qpoints request was changed by later requests on the same object (max change %.3e)" % (
+                k_, np.abs(v_ - held0_copy[k_]).max() if v_.shape == held0_copy[k_].shape else float("inf")), quantity=k_)
     obs["build_openmp" if build_is_omp else "build_serial"] = 1
     obs["nac_" + str(c["nac"])] = 1
     key = "%s|%s|%s|%s|%s|%s" % (c["crystal"]["name"], c["smat"], c["pmat"], c["nac"], c["full"], build_is_omp)
